@@ -3,13 +3,13 @@
 import json, sys
 sys.path.insert(0, 'mirsym')
 ids = [json.loads(l)['id'] for l in open('properties.jsonl')]
-TECH = 'bounded symbolic execution of the crate\'s MIR (own executor, z3 decides branch feasibility and every oracle query over symbolic 64-bit counters; shapes/layouts forked exhaustively within stated bounds); counterexamples replayed against the real build'
+TECH = 'bounded symbolic execution of the crate\'s MIR (own executor, z3 decides branch feasibility and every oracle query over symbolic 64-bit counters; shapes/layouts forked exhaustively within stated bounds; MIR of the release-like profile, and of the debug-assertions profile for C16 and samples of C02 C03 C05 C06 C10 C11 C12); counterexamples replayed against the real build'
 NOTE = 'Trusted base: rustc\'s MIR dump of /repo\'s working tree (opt-level 0, overflow checks on), the MIR executor (mirsym), summaries of core/alloc/hashbrown/log callees (listed per run in evidence), the layout model for hash iteration order, and the ghost ledger in mirsym/driver.py. Translator validation against the native build runs on every check. Bounds per tier are in evidence.coverage.bounds; sizes beyond them are outside the claim.'
 CLAIMED = {
  'C01': 'every shape/history within the bounds: no destructor runs and no block is released for an object reachable from a held handle; query pc AND reachable(e) AND destroyed decided unsat by z3 on every path',
  'C02': 'monitors of the MIR executor (use-after-free, read of moved-out value/table, double free, destructor twice) never fire on any path of the shape universe, Weak handles included',
  'C03': 'after every drop, for the recorded-adoption closure S of the dropped object: z3 shows pc AND orphaned(S) implies every member destroyed; every object without a strong handle is destroyed in the same call',
- 'C06': 'after every operation the strong/weak counters of every live object equal the ledger\'s handle counts for all 2^64 values of the symbolic extras (z3), ptr_eq agrees with identity',
+ 'C06': 'after every operation the strong/weak counters of every live object equal the ledger\'s handle counts for all 2^64 values of the symbolic extras (z3), ptr_eq agrees with identity; no strong handle the program holds points at an object whose value was destroyed',
  'C04': 'histories that end with every handle dropped: z3-decided paths all end with no RcBox block, link table, Vec or map of the model heap still allocated; with Weak handles outstanding only the bare block remains (w_j symbolic through the weak-drop lemma)',
  'C05': 'Weak::upgrade / strong_count / weak_count observed after every operation and from inside every destructor (Weak to self, peers, outsiders) agree with the ledger on every path; a handle returned by upgrade keeps its object alive while held; the block outlives every Weak',
  'C10': 'every member destructor position x one re-entrant API action on a bystander object/group (clone, drop incl. last handle and nested collection, adopt, unadopt, downgrade, upgrade of a Weak to a dying peer): no internal panic, no monitor event, and the C01-C06 oracles hold when the outer call returns',
@@ -17,7 +17,7 @@ CLAIMED = {
  'C12': 'try_unwrap / make_mut (3 branches) / get_mut / raw round trips / increment-decrement_strong_count on every object of adoption graphs, then the remaining handles dropped: no table keeps naming a given-up block, no monitor event, no leaked table',
  'C13': 'histories where a recorded handle is taken out of its owner without unadopt (kept or dropped): no reachable object destroyed, no monitor event; the by-design violation is a listed finding keyed by cause, any other mechanism is reported',
  'C16': 'unit: Rc::clone over all 2^64 counter values aborts exactly for 0, MAX-1, MAX and otherwise adds one (z3); scenario: every member destructor of every group shape clones each handle it holds - every path through a clone of a dead handle ends in abort, dropping one changes nothing',
- 'C07': 'differential: every program of <=2 (3) shared-API calls from 4 adoption-free base states runs in the MIR executor and in a reference model of std::rc written from the std documentation; z3 decides equality of every returned value and of the destructor sequence under each path condition; disagreements are replayed against the real std::rc::Rc',
+ 'C07': 'differential: every program of <=2 calls plus seeded programs of 3 (4) calls out of 20 shared-API calls (incl. comparisons, hashing, Display/Debug/Pointer, raw release) from 8 adoption-free base states runs in the MIR executor and in a reference model of std::rc written from the std documentation; z3 decides equality of every returned value and of the destructor sequence under each path condition; disagreements are replayed against the real std::rc::Rc',
  'C09': 'product check: the same script under several layouts (rank orders, and every per-table order on small shapes); for every pair of paths whose conditions are jointly satisfiable the per-operation destroyed sets and observed counts must be equal (z3); includes histories with a panicking destructor',
  'C14': 'for objects whose bookkeeping is empty at the time of the call (never adopted / fully unadopted / stored inside adopted ones): the number of trace calls and allocation events inside clone/drop is 0 on every path, for all values of the symbolic handle counts; a vacuity witness with a recorded adoption must be seen to trace',
  'C15': 'bounded: for rings, cliques, chords and self adoptions of N=1..4 (6) the nesting depth of Rc::drop / interpreter frames does not grow with N and each trace expands every object at most twice; beyond that size a native run (ring of 200 000 objects on a 128 KiB stack, time ratio N vs 2N) is a confirmation, not a solver verdict',
